@@ -321,9 +321,24 @@ def build_native(obl, wd, extra_defs):
             raise RuntimeError('native compile failed for %s:\n%s' % (s, o))
         objs.append(out)
     exe = os.path.join(nd, 'replay')
-    rc, o = sh(['gcc', '-o', exe] + objs + ['-fsanitize=address,undefined', '-lm', '-lpthread', '-Wl,--unresolved-symbols=ignore-all'])
+    link = ['gcc', '-o', exe] + objs + ['-fsanitize=address,undefined', '-lm', '-lpthread']
+    rc, o = sh(link)
     if rc:
-        raise RuntimeError('native link failed:\n%s' % o)
+        # functions of units that are not part of this obligation: define each as a trap so that the link succeeds
+        # and reaching one is reported instead of silently ignored
+        undef = sorted(set(re.findall(r"undefined reference to `([A-Za-z_][A-Za-z0-9_]*)'", o)))
+        if not undef:
+            raise RuntimeError('native link failed:\n%s' % o)
+        tsrc = os.path.join(nd, 'unlinked_traps.c')
+        with open(tsrc, 'w') as f:
+            f.write('#include <stdio.h>\n#include <stdlib.h>\n')
+            for u in undef:
+                f.write('void %s(void) { fprintf(stderr, "REPLAY: reached function %s of a unit that is not linked in this obligation\\n"); exit(5); }\n' % (u, u))
+        tobj = os.path.join(nd, 'unlinked_traps.o')
+        rc, o2 = sh(['gcc', '-c', tsrc, '-o', tobj, '-w'])
+        rc, o = sh(link + [tobj])
+        if rc:
+            raise RuntimeError('native link failed:\n%s' % o)
     return exe
 
 
@@ -344,7 +359,7 @@ def run_replay(exe, inputs_file, timeout=20):
         return 'clean', out
     if rc == 3:
         return 'assume-fail', out
-    if rc == 4:
+    if rc in (4, 5, 126, 127) or 'error while loading shared libraries' in out:
         return 'replay-error', out
     if rc == 1 and 'REPLAY: VIOLATED' in out:
         return 'assert', out
